@@ -25,15 +25,24 @@ func isTimeTime(t types.Type) bool {
 // args.Cells[k] whose Native it was asserted from; it follows one same-package
 // helper that returns the asserted values.
 func timeOperandIndex(c *Ctx, u FuncUnit, argsP types.Object) map[types.Object]int {
+	return timeOperandIndexSeeded(c, u, argsP, nil, 0)
+}
+
+// timeOperandIndexSeeded: seed maps parameters of u that ARE argument cells
+// (a helper called as timePair(env, args.Cells[0], args.Cells[1])) to their index.
+func timeOperandIndexSeeded(c *Ctx, u FuncUnit, argsP types.Object, seed map[types.Object]int, depth int) map[types.Object]int {
 	info := u.Pkg.TypesInfo
 	out := map[types.Object]int{}
 	// cell locals: a := args.Cells[k]
 	cell := map[types.Object]int{}
+	for o, k := range seed {
+		cell[o] = k
+	}
 	var cellOf func(e ast.Expr) (int, bool)
 	cellOf = func(e ast.Expr) (int, bool) {
 		e = ast.Unparen(e)
 		if ie, ok := e.(*ast.IndexExpr); ok {
-			if se, ok := ast.Unparen(ie.X).(*ast.SelectorExpr); ok && se.Sel.Name == "Cells" && identObj(info, se.X) == argsP {
+			if se, ok := ast.Unparen(ie.X).(*ast.SelectorExpr); ok && se.Sel.Name == "Cells" && argsP != nil && identObj(info, se.X) == argsP {
 				if k, ok := intConst(info, ie.Index); ok {
 					return k, true
 				}
@@ -100,13 +109,16 @@ func timeOperandIndex(c *Ctx, u FuncUnit, argsP types.Object) map[types.Object]i
 							hu := FuncUnit{fn, fd, c.pkgOf[fd]}
 							var hArgs types.Object
 							ps := paramObjs(hu)
+							hseed := map[types.Object]int{}
 							for i, a := range ce.Args {
-								if i < len(ps) && identObj(info, a) == argsP {
+								if i < len(ps) && argsP != nil && identObj(info, a) == argsP {
 									hArgs = ps[i]
+								} else if k, ok := cellOf(a); ok && i < len(ps) {
+									hseed[ps[i]] = k
 								}
 							}
-							if hArgs != nil {
-								inner := timeOperandIndex(c, hu, hArgs)
+							if (hArgs != nil || len(hseed) > 0) && depth < 2 {
+								inner := timeOperandIndexSeeded(c, hu, hArgs, hseed, depth+1)
 								// result i -> operand index: every return statement agrees
 								res := map[int]int{}
 								bad := map[int]bool{}
@@ -329,7 +341,7 @@ func returnsOf(body *ast.BlockStmt) []*ast.ReturnStmt {
 }
 
 func init() {
-	register(&Rule{ID: "TIME.strict-parse", Floor: 2,
+	register(&Rule{ID: "TIME.strict-parse", Floor: 1,
 		Doc: "every time.Parse with an RFC 3339 layout in libtime is dominated by a strictness check of the very string it parses (a same-package function returning error, whose error is returned): time.Parse with these layouts is lenient by design (golang/go#54580) — it accepts a comma fraction separator, a one-digit hour, offsets such as +24:60 and silently drops a tenth fractional digit — so without the check the parser accepts malformed timestamps and format∘parse can produce a string the parser refuses",
 		Run: func(c *Ctx) []Obligation {
 			var obs []Obligation
@@ -346,11 +358,42 @@ func init() {
 							if !stdFuncCalled(info, ce, "time", "Parse") || len(ce.Args) != 2 {
 								continue
 							}
-							lay := identObjOrSel(info, ce.Args[0])
-							if lay == nil || lay.Pkg() == nil || lay.Pkg().Path() != "time" || !strings.HasPrefix(lay.Name(), "RFC3339") {
+							isRFC := func(info *types.Info, e ast.Expr) (string, bool) {
+								lay := identObjOrSel(info, e)
+								if lay == nil || lay.Pkg() == nil || lay.Pkg().Path() != "time" || !strings.HasPrefix(lay.Name(), "RFC3339") {
+									return "", false
+								}
+								return lay.Name(), true
+							}
+							layName, isLay := isRFC(info, ce.Args[0])
+							if !isLay {
+								// the layout may be a parameter of a shared body: every caller passes an RFC 3339 layout
+								if po := identObj(info, ce.Args[0]); po != nil {
+									for k, pp := range paramObjs(u) {
+										if pp != po {
+											continue
+										}
+										sites, refs := c.CallsTo(nil, u.Obj)
+										all := len(sites) > 0 && len(refs) == 0
+										for _, st := range sites {
+											if k >= len(st.Call.Args) {
+												all = false
+												continue
+											}
+											if _, ok := isRFC(st.Unit.Pkg.TypesInfo, st.Call.Args[k]); !ok {
+												all = false
+											}
+										}
+										if all {
+											layName, isLay = "RFC3339 layout parameter", true
+										}
+									}
+								}
+							}
+							if !isLay {
 								continue
 							}
-							construct := ord.next("time.Parse(" + lay.Name() + ")")
+							construct := ord.next("time.Parse(" + layName + ")")
 							str := types.ExprString(ce.Args[1])
 							// a dominating check: err := f(str) (same package, returns error) with the non-nil edge returning
 							okCheck := false
